@@ -818,7 +818,10 @@ class SecureSequenceTimer:
             and timer_notify.message_tag == self._expected_notify_handler[0]
         ):
             fut = self._expected_notify_handler[1]
-            fut.set_result(received_timer_value)
+            # a second answer (or one racing the timeout) may arrive before
+            # `synchronize()` has run again and cleared the handler
+            if not fut.done():
+                fut.set_result(received_timer_value)
             return
         # §2.2.2.3.2.5 Events: E1 - E4
         if received_timer_value > local_timer_value:
